@@ -137,8 +137,22 @@ def r2(ctx, rep):
         rep.check(ok, 'R2', f'try_from:{name}', 'rejected', f"RustType::try_from no longer rejects `{name}` (documented as unsupported: not representable in every target)", {'file': f['file'], 'line': arms[0]['line'] if arms else f['line']})
     top = [m for m in f['matches'] if any('Type::Tuple' in v for a in m['arms'] for v in a['variants'])]
     arms = [a for a in top[0]['arms'] if any('Type::Tuple' in v for v in a['variants'])] if top else []
-    ok = len(arms) >= 2 and any(a['guard'] is not None and 'Unit' in a['body'] for a in arms) and any(a['guard'] is None and 'Err' in a['body'] for a in arms)
-    rep.check(ok, 'R2', 'try_from:tuple', '() accepted, other tuples rejected', 'RustType::try_from: non-empty tuples are no longer rejected', {'file': f['file'], 'line': f['line']})
+    # every arm over Type::Tuple either rejects, or is the empty tuple `()` (a guard testing that there are no elements)
+    def empty_test(g):
+        g = vt.unvar(g)
+        if not isinstance(g, dict):
+            return False
+        if g.get('k') == 'call' and g.get('f') == 'is_empty' and 'elems' in vt.show(g.get('recv')):
+            return True
+        if g.get('k') == 'op' and g.get('op') == '==' and len(g.get('args', [])) == 2:
+            sides = [vt.show(vt.strip(x)) for x in g['args']]
+            return any('elems' in x and ('len()' in x or 'count()' in x) for x in sides) and any(x.strip("'") == '0' for x in sides)
+        return False
+    accepting = [a for a in arms if not (a.get('diverges') and 'Err' in a['body'])]
+    bad = [a for a in accepting if not (a.get('guard') is not None and empty_test(a['guard']) and 'Unit' in a['body'])]
+    rejecting = [a for a in arms if a.get('diverges') and 'Err' in a['body'] and a.get('guard') is None]
+    ok = bool(rejecting) and not bad
+    rep.check(ok, 'R2', 'try_from:tuple', '() accepted, other tuples rejected', 'RustType::try_from: ' + (f"a tuple type is accepted by the arm `{bad[0]['pat'][:40]}{' if ' + vt.show(bad[0]['guard'])[:50] if bad[0].get('guard') else ''}` — only the empty tuple `()` is supported, every other tuple (including `(T,)`) must be rejected" if bad else 'non-empty tuples are no longer rejected'), {'file': f['file'], 'line': (bad[0]['line'] if bad else f['line'])})
 
 
 def agg(body, adt_suffix, variant):
